@@ -1,19 +1,22 @@
 """C18 — the bundled validation helper `allclose` is a sound oracle.
 
 Lean side (lean/J2O/Model/C18.lean, Lemmas/C18.lean, Props/C18.lean): the decision sequence of
-`_run_allclose` as it is NOW (count check, NCHW back-transpose, complex repack, shape check,
-cast of ORT's output to the expected dtype, numpy's asymmetric isclose with equal_nan /
-array_equal), on exact values (rationals, NaN, ±inf).  Theorems: `allclose_sound_partial`
-(match ∧ lossless cast ⇒ the outputs agree), `allclose_sound_refuted` (without the hypothesis the
-statement is false: witnesses replayed on the real code), x64 flag restoration for every body
-and every history.
+`_run_allclose` as it is NOW, after fix 61b87cb (count check, NCHW back-transpose, component-wise
+complex repack, shape check, `_comparison_operands` = numpy's safe cast / result_type promotion,
+numpy's asymmetric isclose with equal_nan / array_equal), on exact values (rationals, NaN, ±inf).
+Theorems: `allclose_sound_same_dtype` (full strength when the dtypes agree),
+`allclose_sound_partial` (match ∧ lossless promotion ⇒ the outputs agree),
+`allclose_sound_refuted` (residual: numpy promotes 64-bit integers to float64), regression
+theorems `w1_fixed`…`w5_fixed` about the pre-fix decision, x64 flag restoration for every body and
+every history.
 
 Tie (H, two-sided): seeded systematic perturbations of matching (expected, got) pairs are
 materialised as constant-output ONNX files and run through the REAL `jax2onnx.allclose`; the
 same case goes to the Lean driver; the verdicts must be equal.  Both are compared with the exact
 specification (`agreesB` = `Agrees`, no cast): real says match where the spec says mismatch is a
-finding (the cast-before-compare ones are listed in known_findings.d/C18.json).
-numpy's `astype` is compared with the model's `castEl` on a value sweep (model validation).
+finding (the residual int64→float64 promotion is listed in known_findings.d/C18.json).
+numpy's `astype`, `can_cast(safe)` and `result_type` are compared with the model's `castEl`,
+`canCastSafe`, `resultKind` on a value sweep / the whole dtype table (model validation).
 The x64 flag is observed before/after real `allclose` / `to_onnx` calls whose `fn` raises or
 toggles the flag, and compared with `xrun`.
 """
@@ -42,22 +45,26 @@ META = {
                  "statement) + two-sided driver correspondence with the real allclose on seeded "
                  "systematic perturbations materialised as ONNX files; x64 flag stack discipline proved "
                  "for all programs",
-    "level_text": "Kernel-checked: allclose_sound_partial (for all tolerances >= 0, output lists, layout "
-                  "flags: verdict match and lossless cast => equal count, equal shapes, every element within "
-                  "|e-g| <= atol + rtol|g|, NaN/inf placement equal), agreesB_iff/noLossyB_iff (the executable "
-                  "spec printed by the driver is the Prop spec), allclose_sound_refuted (+4 decide-checked "
-                  "witnesses: the unrestricted statement is false on the current code), tmp_restores / "
+    "level_text": "Kernel-checked: allclose_sound_same_dtype (FULL strength when ORT's output dtype equals the "
+                  "expected dtype: verdict match => equal count, equal shapes, every element within |e-g| <= atol + "
+                  "rtol|g|, NaN/inf placement equal; all tolerances >= 0, output lists, layout flags), "
+                  "allclose_sound_partial (the same for arbitrary dtype pairs when numpy's promotion changes no "
+                  "value), agreesB_iff/noLossyB_iff (the executable spec printed by the driver is the Prop spec), "
+                  "allclose_sound_refuted + r1_match/r2_match (residual: int64/uint64 promoted to float64), "
+                  "w1_fixed..w5_fixed (the five witnesses of the repaired cast-before-compare defect match under "
+                  "the pre-fix decision and are mismatches now), modulusLe_iff_real, tmp_restores / "
                   "x64_restored_allclose / x64_restored_to_onnx / x64_history_restored (all bodies, nestings, "
                   "exception points, histories).",
-    "level_note": "PARTIAL until the cast-before-compare defect is fixed: soundness needs the hypothesis "
-                  "NoLossyCast. Trusted: Lean kernel + 3 standard axioms; the hand-written model of numpy "
-                  "astype/isclose (validated each run against numpy on a value sweep and against the real "
-                  "allclose on the generated cases; floating-point evaluation of the tolerance test inside "
-                  "numpy is modelled exactly, cases closer than a dtype-dependent margin to the tolerance "
-                  "boundary are not generated); ONNX Runtime execution itself; the complex modulus test is "
-                  "written sqrt-free in the model and proved equal to the modulus test over R "
-                  "(modulusLe_iff_real); bfloat16 and C-undefined float->int casts are "
-                  "outside the model (reported as unspecified).",
+    "level_note": "Since fix 61b87cb the only hypothesis left for mixed dtypes is that numpy's own promotion "
+                  "(can_cast 'safe' / result_type) is lossless; it fails only for 64-bit integers above 2^53 that "
+                  "numpy promotes to float64 (known finding F-C18-int64-promotion, needs tolerances near 0). "
+                  "Trusted: Lean kernel + 3 standard axioms; the hand-written model of numpy "
+                  "astype/can_cast/result_type/isclose (validated each run against numpy on a value sweep, the "
+                  "whole dtype table, and against the real allclose on the generated cases; floating-point "
+                  "evaluation of the tolerance test inside numpy is modelled exactly, cases closer than a "
+                  "dtype-dependent margin to the tolerance boundary are not generated); ONNX Runtime execution "
+                  "itself; bfloat16 / extension dtypes (TypeError fallback of _comparison_operands) are outside "
+                  "the model.",
     "design_ref": "DESIGN.md §3 C18",
 }
 
@@ -415,6 +422,17 @@ def gen_cases(rng: common.Rng, thorough: bool) -> list[Case]:
                       tag="round/f32<-f64"))
     cases.append(Case([np.array([0.0], np.float32)], [np.array([1e-60], np.float64)], 0.0, 0.0,
                       tag="underflow/f32<-f64"))
+    # residual after fix 61b87cb: numpy's own promotion of 64-bit integers to float64
+    cases.append(Case([np.array([2.0 ** 53], np.float64)], [np.array([2 ** 53 + 1], np.int64)], 0.0, 0.0,
+                      tag="promote/f64<-i64"))
+    cases.append(Case([np.array([2 ** 53 + 1], np.int64)], [np.array([2.0 ** 53], np.float32)], 0.0, 0.0,
+                      tag="promote/i64<-f32"))
+    cases.append(Case([np.array([2 ** 63 - 1], np.int64)], [np.array([2 ** 63], np.uint64)], 0.0, 0.0,
+                      tag="promote/i64<-u64"))
+    cases.append(Case([np.array([2 ** 63 - 1], np.int64)], [np.array([2 ** 63], np.uint64)], 1e-3, 1e-5,
+                      tag="promote/i64<-u64/default-tolerance"))
+    cases.append(Case([np.array([2.0 ** 53], np.float64)], [np.array([2 ** 53 + 2], np.int64)], 0.0, 0.0,
+                      tag="promote/f64<-i64/representable"))
 
     # ---- D. shape changes with the same values ------------------------------------------
     for kind in ["f32", "i32", "f64", "bool"]:
@@ -791,15 +809,14 @@ def program_cases(chk: Check, rng: common.Rng, real: Real, thorough: bool) -> tu
 
 def finding_key(ek: str, gk: str, lossy: bool, tag: str, exp=None, got=None) -> dict:
     if lossy:
-        cat = cast_category(ek, gk)
-        if klass(ek) == "complex" and exp is not None:
-            for e, g in zip(exp, got):
-                g = np.asarray(g)
-                if np.asarray(e).dtype.kind == "c" and g.dtype.kind == "f" and g.ndim >= 1 and g.shape[-1] == 2 \
-                        and not np.all(np.isfinite(g[..., 1])):
-                    cat = "complex_repack_nonfinite"
-        return {"kind": "lossy_cast_before_compare", "cast": cat,
-                "expected_kind": ek, "got_kind": gk}
+        # since fix 61b87cb the only lossy step left is numpy's own promotion of 64-bit integers
+        common = KIND_OF.get(np.dtype(np.result_type(NP[ek], NP[gk])), "?") if ek in NP and gk in NP else "?"
+        if common == "f64" and ({ek, gk} & {"i64", "u64"}):
+            cat = "int64_to_float64"
+        else:
+            cat = f"other:{cast_category(ek, gk)}"
+        return {"kind": "lossy_promotion_before_compare", "cast": cat, "expected_kind": ek, "got_kind": gk,
+                "common_kind": common}
     return {"kind": "unsound_match", "expected_kind": ek, "got_kind": gk, "case": tag}
 
 
@@ -853,20 +870,53 @@ def judge(chk: Check, tag: str, real_ok: bool, real_msg: str, answer: str, repla
                           name=None, no_failing_input=True)
 
 
+def promoted(e: np.ndarray, g: np.ndarray) -> tuple[np.ndarray, np.ndarray]:
+    """numpy's promotion as `_comparison_operands` applies it (used only to compute the boundary
+    margin in the dtype the comparison is carried out in)."""
+    if e.dtype == g.dtype:
+        return e, g
+    with np.errstate(all="ignore"):
+        if np.can_cast(g.dtype, e.dtype, casting="safe"):
+            return e, g.astype(e.dtype)
+        c = np.result_type(e.dtype, g.dtype)
+        return e.astype(c), g.astype(c)
+
+
 def near_boundary(c: "Case") -> bool:
     """closer to the tolerance boundary than floating-point evaluation resolves?"""
     for e, g in zip(c.exp, c.got):
         e, g = np.asarray(e), np.asarray(g)
         if e.shape != g.shape or e.dtype.kind == "c" or g.dtype.kind == "c":
             continue
-        ek = KIND_OF[e.dtype]
-        comp = ek if ek in FLT_KINDS else "f64"
-        with np.errstate(all="ignore"):
-            gc = g.astype(e.dtype)
-        m = exact_margin(e, gc, c.rtol, c.atol)
+        lhs, rhs = promoted(e, g)
+        lk = KIND_OF.get(lhs.dtype, "f64")
+        comp = lk if lk in FLT_KINDS else "f64"
+        m = exact_margin(lhs, rhs, c.rtol, c.atol)
         if m is not None and m < MARGIN[comp]:
             return True
     return False
+
+
+def promotion_table():
+    """numpy's can_cast("safe") / result_type on the whole dtype table vs the model's
+    canCastSafe / resultKind.  Returns (driver lines, finish(answers))."""
+    kinds = list(NP.keys())
+    pairs = [(a, b) for a in kinds for b in kinds]
+    lines = [json.dumps({"op": "promote", "a": a, "b": b}) for a, b in pairs]
+
+    def finish(answers: list[str], chk: Check) -> None:
+        bad = []
+        for (a, b), ans in zip(pairs, answers):
+            want = f"{'true' if np.can_cast(NP[a], NP[b], casting='safe') else 'false'} " \
+                   f"{KIND_OF[np.dtype(np.result_type(NP[a], NP[b]))]}"
+            if ans != want:
+                bad.append({"a": a, "b": b, "numpy": want, "model": ans})
+        chk.info("promotion_table_validation", {"pairs": len(pairs), "mismatches": len(bad)})
+        chk.add("traces_validated_against_impl", len(pairs))
+        if bad:
+            raise RuntimeError(f"promotion model disagrees with numpy can_cast/result_type: {bad[:6]}")
+
+    return lines, finish
 
 
 def run(chk: Check) -> None:
@@ -884,6 +934,9 @@ def run(chk: Check) -> None:
     cast_lines, cast_finish = cast_sweep(chk, rng, thorough)
     n_cast = len(cast_lines)
     requests += [(l, None) for l in cast_lines]
+    prom_lines, prom_finish = promotion_table()
+    n_prom = len(prom_lines)
+    requests += [(l, None) for l in prom_lines]
 
     real = Real()
     stats = {k: 0 for k in ["cases", "real_match", "spec_agrees", "lossy", "unspecified", "reason_agree",
@@ -957,7 +1010,8 @@ def run(chk: Check) -> None:
 
     answers = common.run_driver("C18", [l for l, _ in requests])
     cast_finish(answers[:n_cast])
-    for (_, h), ans in zip(requests[n_cast:], answers[n_cast:]):
+    prom_finish(answers[n_cast:n_cast + n_prom], chk)
+    for (_, h), ans in zip(requests[n_cast + n_prom:], answers[n_cast + n_prom:]):
         h(ans)
     chk.info("case_families", tags)
     chk.info("x64_cases", xstat)
